@@ -77,7 +77,7 @@ func (r *Redirector) Redirect(w http.ResponseWriter, req *http.Request, ro authb
 func (r Redirector) redirectAPI(w http.ResponseWriter, req *http.Request, ro authboss.RedirectOptions) error {
 	path := ro.RedirectPath
 	redir := req.FormValue(r.FormValueName)
-	if strings.Contains(redir, "://") {
+	if !authboss.IsLocalRedirect(redir) {
 		// Guard against Open Redirect: https://cwe.mitre.org/data/definitions/601.html
 		redir = ""
 	}
@@ -127,7 +127,7 @@ func (r Redirector) redirectAPI(w http.ResponseWriter, req *http.Request, ro aut
 func (r Redirector) redirectNonAPI(w http.ResponseWriter, req *http.Request, ro authboss.RedirectOptions) error {
 	path := ro.RedirectPath
 	redir := req.FormValue(r.FormValueName)
-	if strings.Contains(redir, "://") {
+	if !authboss.IsLocalRedirect(redir) {
 		// Guard against Open Redirect: https://cwe.mitre.org/data/definitions/601.html
 		redir = ""
 	}
